@@ -166,6 +166,12 @@ func fullName(fn *types.Func) string {
 // callStatic handles a call whose callee is a known *types.Func (function, concrete method or interface method).
 func (c *Ctx) callStatic(st *State, x *ast.CallExpr, fn *types.Func, recvExpr ast.Expr, sel *types.Selection) Val {
 	sig := fn.Type().(*types.Signature)
+	// instantiated signature of a generic callee (types of results in the caller's terms)
+	if tv, ok := c.pkg.info.Types[x.Fun]; ok && recvExpr == nil {
+		if isig, ok := tv.Type.(*types.Signature); ok && isig.Params().Len() == sig.Params().Len() {
+			sig = isig
+		}
+	}
 	name := fullName(fn)
 	if fn.Origin() != nil && fn.Origin() != fn {
 		fn = fn.Origin()
@@ -184,8 +190,11 @@ func (c *Ctx) callStatic(st *State, x *ast.CallExpr, fn *types.Func, recvExpr as
 	}
 	pk, fd, fc := c.prog.lookupFunc(fn)
 	args := c.evalArgs(st, x, sig)
+	if fd != nil && fd.Body != nil && c.mayInline(fn, name) {
+		return c.inlineCall(st, x, pk, fd, recv, args)
+	}
 	if fc != nil {
-		return c.applyContract(st, x, pk, fn, fd, fc, recv, args)
+		return c.applyContractSig(st, x, pk, sig, fd, fc, recv, args, name)
 	}
 	if fd != nil && fd.Body != nil && c.mayInline(fn, name) {
 		return c.inlineCall(st, x, pk, fd, recv, args)
@@ -443,7 +452,7 @@ func (c *Ctx) stringToBytes(st *State, s Term, elem types.Type) Val {
 	n := c.name(app(c.idxSort(), "str.len", s), "n")
 	r := c.allocRef(st)
 	row := c.declare("row", arraySort(c.idxSort(), srt))
-	st.assume(c, c.forallIdx(func(i Term) Term { return Eq(Select(row, i), app(srt, "str.at", s, i)) }))
+	c.qfact(st, c.forallIdx(func(i Term) Term { return Eq(Select(row, i), app(srt, "str.at", s, i)) }))
 	fam := c.elemPrefix(elem)
 	h := c.heapGet(st, fam, srt)
 	st.heaps[fam] = c.name(Store(h, r, row), "H_"+fam)
@@ -458,7 +467,7 @@ func (c *Ctx) bytesToString(st *State, s Slice, to types.Type) Val {
 	fam := c.elemPrefix(s.Elem)
 	row := Select(c.heapGet(st, fam, srt), s.Ref)
 	st.assume(c, Eq(app(c.idxSort(), "str.len", str), s.Len))
-	st.assume(c, c.forallIdx(func(i Term) Term {
+	c.qfact(st, c.forallIdx(func(i Term) Term {
 		return Implies(And(c.ile(c.idx(0), i), c.ilt(i, s.Len)), Eq(app(srt, "str.at", str, i), Select(row, c.iadd(s.Off, i))))
 	}))
 	return Scalar{str, to}
@@ -581,7 +590,7 @@ func (c *Ctx) havocSliceRange(st *State, s Slice, fact func(fam, leaf string, ol
 		old := c.name(Select(h, s.Ref), "row")
 		nw := c.declare("row", arraySort(c.idxSort(), f[1]))
 		st.heaps[f[0]] = c.name(Store(h, s.Ref, nw), "H_"+f[0])
-		st.assume(c, fact(f[0], f[1], old, nw))
+		c.qfact(st, fact(f[0], f[1], old, nw))
 	}
 }
 
@@ -719,12 +728,12 @@ func (c *Ctx) appendGeneric(st *State, s Slice, n Term, elemAt func(fam, leaf st
 		inrow := c.declare("irow", arraySort(c.idxSort(), f[1]))
 		base := c.iadd(s.Off, s.Len)
 		fam, leaf := f[0], f[1]
-		st.assume(c, c.forallIdx(func(i Term) Term {
+		c.qfact(st, c.forallIdx(func(i Term) Term {
 			in := And(c.ile(base, i), c.ilt(i, c.iadd(base, n)))
 			return Eq(Select(inrow, i), Ite(in, elemAt(fam, leaf, c.isub(i, base)), Select(old, i)))
 		}))
 		rerow := c.declare("rrow", arraySort(c.idxSort(), f[1]))
-		st.assume(c, c.forallIdx(func(i Term) Term {
+		c.qfact(st, c.forallIdx(func(i Term) Term {
 			lo := And(c.ile(c.idx(0), i), c.ilt(i, s.Len))
 			hi := And(c.ile(s.Len, i), c.ilt(i, newLen))
 			return And(Implies(lo, Eq(Select(rerow, i), Select(old, c.iadd(s.Off, i)))),
